@@ -1134,6 +1134,154 @@ def run_learn(case):
     return evaluated, problems
 
 
+# ----------------------------------------------------------------------------- suite: the PPO glue (py2lean_ppoglue)
+def action_dims(spec) -> int:
+    k = spec["kind"]
+    return int(spec["d"]) if k == "box" else len(spec["nvec"]) if k == "multidiscrete" else int(spec["n"]) if k == "multibinary" else 0
+
+
+def run_glue(case):
+    """get_action (training mode) -> a one-step rollout of B environments -> PPO.learn with batch_size = B: what the FIRST
+    minibatch hands to action_log_prob, and `log_prob - batch_log_probs` / `ratio` as the code computes them (the minibatch
+    tensors are read off `get_experiences_samples`).  Returns (problems, mask_mismatches, tags): without a mask every
+    row must have ratio = 1; with a mask the mismatches are the open finding, reported separately."""
+    import agilerl.algorithms.ppo as ppo_mod
+    spec = case["spec"]
+    squash = bool(case.get("squash", False)) and spec["kind"] == "box"
+    idx, mask = rows_of(case)
+    B = len(idx)
+    pool = obs_pool(case["seed"])
+    obs, nxt = pool[idx], pool[[(i + 5) % POOL for i in idx]]
+    ag = build_ppo(dict(case, batch_size=B, epochs=1))
+    problems, mism, tags = [], [], [f"glue-B{min(B, 5)}"]
+    raw = raw_logits(ag.actor, ag.preprocess_observation(obs))
+    ls = log_std_of(ag.actor)
+    torch.manual_seed(case["seed"] + 1)
+    act, lp, _ent, val = ag.get_action(obs, action_mask=mask)
+    act, lp = np.asarray(act), np.asarray(lp, dtype=np.float64)
+    if lp.shape != (B,):
+        return [f"PPO.get_action: log_prob has shape {lp.shape} for a batch of {B}"], mism, tags
+    batch = ([obs], [act], [np.asarray(lp, dtype=np.float32)], [np.zeros(B)], [np.zeros(B)], [np.asarray(val)], nxt, np.zeros(B))
+    calls, samples, evals = [], [], []
+    orig_lp, orig_ges, orig_eval = ag.actor.action_log_prob, ppo_mod.get_experiences_samples, ag.evaluate_actions
+
+    def spy_lp(action):
+        out = orig_lp(action)
+        calls.append((action.detach().clone(), out.detach().clone()))
+        return out
+
+    def spy_ges(*a, **kw):
+        out = orig_ges(*a, **kw)
+        samples.append([x.detach().clone() if torch.is_tensor(x) else x for x in out])
+        return out
+
+    def spy_eval(*a, **kw):
+        out = orig_eval(*a, **kw)
+        evals.append([x.detach().clone() for x in out])
+        return out
+    object.__setattr__(ag.actor, "action_log_prob", spy_lp)
+    object.__setattr__(ag, "evaluate_actions", spy_eval)
+    ppo_mod.get_experiences_samples = spy_ges
+    try:
+        agents.seed_all(case["seed"] + 2)
+        ag.learn(batch)
+    finally:
+        ppo_mod.get_experiences_samples = orig_ges
+        for o, n in ((ag.actor, "action_log_prob"), (ag, "evaluate_actions")):
+            try:
+                object.__delattr__(o, n)
+            except Exception:
+                pass
+    if not samples:
+        return ["PPO.learn never indexed a minibatch (get_experiences_samples was not called)"], mism, tags
+    if B == 1 and not calls:
+        tags.append("glue-single-row-skipped")              # as coded and as modelled: `len(minibatch_idxs) > 1` is false
+        return problems, mism, tags
+    if not calls:
+        return [f"PPO.learn did not re-evaluate the stored actions of a minibatch of {B} rows"], mism, tags
+    a_in, out = calls[0]
+    want_shape = (B,) if spec["kind"] == "discrete" else (B, action_dims(spec))
+    if tuple(a_in.shape) != want_shape:
+        problems.append(f"PPO.learn handed an action tensor of shape {tuple(a_in.shape)} to action_log_prob for {B} stored "
+                        f"{spec['kind']} actions (expected {want_shape}: the action dimension must survive squeeze())")
+    out = out.double().numpy()
+    blp = samples[0][2].double().numpy().reshape(-1)
+    if out.shape != (B,) or blp.shape != (B,):
+        problems.append(f"PPO.learn: re-evaluated log_prob has shape {out.shape}, batch_log_probs {blp.shape}, for {B} rows")
+        return problems, mism, tags
+    acts = a_in.double().numpy().reshape(B, -1)
+    states = samples[0][0]
+    states = states.double().numpy().reshape(B, -1) if torch.is_tensor(states) else None
+    for b in range(B):
+        extra = 0.0
+        if squash:
+            j = b if states is None else int(np.argmin(np.abs(obs.astype(np.float64) - states[b]).sum(axis=1)))
+            row = {"squash": True, "action": acts[b].astype(np.float32).tolist(), "mu": raw[j].tolist(), "log_std": ls.tolist()}
+            if saturated(row):
+                continue
+            extra = cond_extra(row)
+        logratio = float(out[b] - blp[b])
+        tol = 1e-4 * (1 + abs(out[b])) + extra
+        if not (abs(logratio) <= tol and abs(math.exp(min(logratio, 50.0)) - 1.0) <= 2 * tol + 1e-6):
+            msg = (f"PPO.learn, first minibatch, unchanged weights: stored action {acts[b].tolist()} has rollout log_prob {blp[b]!r} "
+                   f"but is re-evaluated to {out[b]!r}: ratio = {math.exp(min(logratio, 50.0))!r}, not 1")
+            if mask is None:
+                problems.append(msg)
+            else:
+                mism.append(msg + f" (sampled under a mask, re-evaluated without it)")
+    if evals:
+        ent = evals[0][1].double().numpy()
+        if squash:
+            if not close(float(np.mean(ent)), -float(np.mean(out)), 1e-5):
+                problems.append(f"PPO.learn with squashing: the entropy term {ent.tolist()} is not -mean(log_prob) = {-float(np.mean(out))}")
+        elif ent.shape != (B,):
+            problems.append(f"PPO.learn: the entropy term has shape {ent.shape} for {B} rows (one entropy per row expected)")
+    tags.append("stored-reeval")
+    return problems, mism, tags
+
+
+def glue_cases(rng, masked: bool):
+    specs = [{"kind": "discrete", "n": 3}, {"kind": "multidiscrete", "nvec": [3]}, {"kind": "multidiscrete", "nvec": [2, 3]},
+             {"kind": "multibinary", "n": 1}, {"kind": "multibinary", "n": 3}]
+    if not masked:
+        specs += [{"kind": "box", "d": 1}, {"kind": "box", "d": 2}, {"kind": "box", "d": 2, "low": -2.0, "high": 2.0}]
+    out = []
+    for spec in specs:
+        for B in (1, 2, 5):
+            for squash in (False, True):
+                if squash and spec["kind"] != "box" and B != 2:
+                    continue                                   # inert option: once per kind
+                out.append({"suite": "glue", "spec": spec, "rows": gen_rows(rng, spec, masked, B), "seed": rng.randrange(1 << 30),
+                            "scale": 4.0 if spec["kind"] != "box" else 2.0, "std_init": 0.0, "squash": squash})
+    return out
+
+
+def glue_mask_probes(chk: Check) -> None:
+    """the same drive with masks: the rollout stores no masks, `learn` re-evaluates without them (open finding
+    C16-ppo-reevaluation-ignores-mask, Props: C16_source_translation_glue_masked_reevaluation_partial / _witness)"""
+    listed = getattr(chk, "_known", {})
+    n = 0
+    first = None
+    for case in glue_cases(chk.rng, True):
+        try:
+            problems, mism, tags = run_glue(case)
+        except Exception as e:
+            problems, mism, tags = [f"implementation raised on a legal configuration: {type(e).__name__}: {e}"], [], []
+        n += 1
+        chk.case(case_key(case), nontrivial=True, tags=sorted(set(tags + ["suite-glue", "masked-row", f"kind-{case['spec']['kind']}"])))
+        if problems:
+            chk.violation(problems[0], {"case": case_key(case), "oracle_problems": problems[:6]})
+        if mism and first is None:
+            first = (case, mism[0])
+    chk.suite("glue-first-minibatch-masked", n, 0)
+    if first is not None:
+        case, detail = first
+        if FINDING_MASK in listed:
+            chk.finding(FINDING_MASK, detail, {"probe": FINDING_MASK, "case": case_key(case), "detail": detail})
+        else:
+            chk.notes.append(f"probe {FINDING_MASK} through PPO.learn (not listed in known_findings.json, not judged): {detail}")
+
+
 # ----------------------------------------------------------------------------- options that must be inert for a space kind
 def case_specs(case):
     return list(case["specs"]) if "specs" in case else [case["spec"]]
@@ -1311,9 +1459,16 @@ def eval_case(chk: Check, case, n_draws: int = 0):
                     row_lines(L, spec, row, f"{case['algo']}.learn/{name} call {ci} row {b}: ")
                     oracle_row(spec, row, problems, f"{case['algo']}.learn/{name} call {ci} row {b}: ")
                 groups.append((spec, rows))
+        elif suite == "glue":
+            problems, _mism, gtags = run_glue(case)
+            tags += gtags
+            if case.get("squash") and case["spec"]["kind"] == "box":
+                tags.append("squash-row")
+            tags.append(f"kind-{case['spec']['kind']}")
+            groups, labels = [], []
         else:
             raise InfraError(f"unknown suite {suite}")
-        inert = inert_options(case)
+        inert = inert_options(case) if suite != "glue" else []
         if inert:
             tags.append("inert-option")
             problems = [f"{p} [configuration: {' and '.join(inert)}, where the option must have no effect]" for p in problems]
@@ -1654,6 +1809,7 @@ def gen_cases(chk: Check):
         s1 = random_spec(rng)
         cases.append({"suite": "learn", "algo": "IPPO", "agent_ids": ["agent_0", "agent_1", "other_0"], "specs": [s0, s0, s1],
                       "rows": [], "seed": rng.randrange(1 << 30), "scale": rng.choice([1.0, 4.0]), "std_init": 0.0})
+    cases += glue_cases(rng, False)                           # ratio = 1 in the first minibatch: kinds x B in {1,2,5} x squash
     return cases
 
 
@@ -1696,6 +1852,9 @@ def pre_gate(chk: Check) -> None:
     import py2lean_dist
     common.translation_gate(chk, py2lean_dist, "Gen/DistGen.lean", ["Gen.DistGen", "Proofs.DistGenEq", "Props.C16"],
                             "log-prob / entropy / masking / squashing formulas of distributions.py and StochasticActor")
+    import py2lean_ppoglue
+    common.translation_gate(chk, py2lean_ppoglue, "Gen/PpoGlueGen.lean", ["Gen.PpoGlueGen", "Proofs.PpoGlueGenEq", "Props.C16"],
+                            "PPO / IPPO glue: which action, mask and log-prob travel from get_action through learn into the actor")
 
 
 def run(chk: Check) -> None:
@@ -1744,9 +1903,11 @@ def run(chk: Check) -> None:
                 chk.violation((problems or [diffs[0]["what"]])[0], None, no_input=not problems)
             reported += 1
     for name, (n, d) in per_suite.items():
-        chk.suite({"actor": "actor-direct", "ppo": "ppo-get-evaluate", "ippo": "ippo-get-action", "learn": "learn-reevaluation"}[name], n, d)
+        chk.suite({"actor": "actor-direct", "ppo": "ppo-get-evaluate", "ippo": "ippo-get-action", "learn": "learn-reevaluation",
+                   "glue": "glue-first-minibatch"}[name], n, d)
     note_unsupported(chk)
     known_probes(chk)
+    glue_mask_probes(chk)
     if chk.tier == "thorough":
         selftest(chk)
 
@@ -1957,6 +2118,13 @@ def replay(chk: Check, path: str) -> int:
     c = json.loads(open(path).read())
     c = c.get("replay", c)
     case = c.get("case", c)
+    if c.get("probe") in PROBES and case.get("suite") == "glue":
+        _p, mism, _t = run_glue(case)
+        print(json.dumps({"probe": c["probe"], "case": case, "detail": mism[:3]}, indent=1, default=str))
+        if mism:
+            print(f"VIOLATION property=C16 replay={path}")
+            return 1
+        return 0
     if c.get("probe") in PROBES:
         detail = PROBES[c["probe"]][0](case)
         print(json.dumps({"probe": c["probe"], "case": case, "detail": detail}, indent=1, default=str))
